@@ -19,6 +19,10 @@ Part P (output paths): one configuration per output path with a no-op key as the
   zippychord output mapping): all tap words of length <= 3 over the keys, holds, overlaps and random histories are
   recorded from the real code and judged by TLC against P_C11 in paths mode (I2 only); the small members are explored
   exhaustively with L1 || P_C11 (mc.check_instance, every transition replayed on the code).
+Part R (intercept set across live reloads): harness/src/mapkeys.rs starts kanata from one random content and runs
+  words of file contents (valid, valid but failing in a late reload step, not parsing, refused, missing), each followed
+  by a reload request; MAPPED_KEYS is read after every step and P_C11.ReloadBad (TLC) compares it with
+  P_C11.Intercept of the configuration in force.
 Part S (intercept set): random defsrc / deflayermap / process-unmapped-keys lists; Cfg.mapped_keys of the real
   parser is compared by TLC with P_C11.Intercept computed from the text-level description.
 """
@@ -1160,7 +1164,10 @@ def run(tier, seed):
         "overlapping pairs, traces validated by TLC against P_C11; one configuration per output path with a no-op key as the "
         "emitted key (tap words <= 3, holds, overlaps, random histories; small members explored with L1 || P_C11 and replayed), "
         "judged by P_C11 I2; Cfg.mapped_keys of random defsrc / deflayermap / "
-        "process-unmapped-keys configurations compared by TLC with P_C11.Intercept.  distinct_nontrivial = distinct TLC states.",
+        "process-unmapped-keys configurations compared by TLC with P_C11.Intercept; after start-up and after every step of "
+        "reload scripts (all words of <= 3 file contents over {valid, valid whose reload fails late (xset), syntax error, refused, "
+        "missing, original}, each followed by a tap of the lrld key) the intercepted set read from the running code equals "
+        "P_C11.Intercept of the configuration in force (P_C11.ReloadBad).  distinct_nontrivial = distinct TLC states.",
         assumptions=["linux code mapping (target_os = linux build of the parser)",
                      "pseudo codes KEY_RESERVED(0), KEY_UNKNOWN(240), KEY_MAX(767) are not keys: excluded from the identity "
                      "and intercept-set requirements",
@@ -1172,12 +1179,10 @@ def run(tier, seed):
                      "names that are action keywords in a layer (mlft, mwu, ...) are not key names in action positions",
                      "(arbitrary-code n) writes the number the user gave (event kind `code`); it is not a key of kanata's code "
                      "space and I2 does not apply to it",
-                     "NOT COVERED: the intercept set is compared through Cfg.mapped_keys of the parser; the static MAPPED_KEYS "
-                     "that the OS event loop consults (src/kanata/mod.rs, private; written by Kanata::new / new_from_str / "
-                     "do_live_reload) is not readable from the harness crate and its only reader (event_loop) needs real input "
-                     "devices, so 'the intercepted set after a successful / abandoned live reload is that of the configuration "
-                     "in force' is not checked; it needs an add-only #[cfg(kanata_verif)] accessor in /repo, after which "
-                     "harness/src/reload.rs can export the set per step for TLC to compare with P_C11.Intercept",
+                     "intercept set across reloads: MAPPED_KEYS is read through the hook Kanata::verif_mapped_keys (cfg kanata_verif); "
+                     "`xset` is made unavailable through PATH so that a new configuration with linux-x11-repeat-delay-rate fails in a "
+                     "late step of the reload; the configuration in force is decided by ground truth (layout object replaced); "
+                     "reloads are requested with the lrld action only (lrld-next / lrld-num / TCP go through the same do_live_reload)",
                      "deterministic stepper; dev-profile build of the working tree"],
         extra_cov={"tables": tables_cov, "exhaustive": True,
                    "intercept_configs": len(lines), "intercept_generator_rejected": len(failed)})
